@@ -8,7 +8,7 @@ Phases == <<"Read", "Scan", "Parse", "Expand", "Labels", "Symbols", "Emit", "Clo
 PhaseIndex(p) == CHOOSE j \in 1..Len(Phases) : Phases[j] = p
 
 FaultClasses == {"none", "missing_source", "lexical", "syntax", "undefined_macro", "too_few_args", "missing_include",
-                 "missing_incbin", "missing_table", "missing_ips", "undefined_operand_nosuffix", "unmapped_position",
+                 "missing_incbin", "missing_table", "missing_ips", "malformed_ips", "undefined_operand_nosuffix", "unmapped_position",
                  "undefined_equ", "undefined_macro_arg", "undefined_operand", "undefined_data", "bad_width", "bad_mode", "branch_range",
                  "text_without_table"}
 \* the phase in which each class of definite error is detected (at the latest)
@@ -16,7 +16,7 @@ PhaseOf(f) ==
     CASE f = "missing_source" -> "Read"
       [] f = "lexical" -> "Scan"
       [] f \in {"syntax", "missing_include"} -> "Parse"
-      [] f \in {"undefined_macro", "too_few_args", "missing_incbin", "missing_table", "missing_ips"} -> "Expand"
+      [] f \in {"undefined_macro", "too_few_args", "missing_incbin", "missing_table", "missing_ips", "malformed_ips"} -> "Expand"
       [] f \in {"undefined_operand_nosuffix", "unmapped_position", "text_without_table"} -> "Labels"
       [] f \in {"undefined_equ", "undefined_macro_arg"} -> "Symbols"
       [] f \in {"undefined_operand", "undefined_data", "bad_width", "bad_mode", "branch_range"} -> "Emit"
